@@ -164,7 +164,7 @@ theorem lkInner_false (st f oSt oF : Name) (id : Id) (s : St) (l : Id) :
 theorem lkStep_false (st f oSt oF : Name) (s : St) (id : Id) :
     lkStep st f oSt oF false s id = (s, lkRep1 st f oSt oF s id) := by
   unfold lkStep lkRep1
-  rw [runSteps_id _ (lkInner_false st f oSt oF id)]
+  simp only [runSteps_id _ (lkInner_false st f oSt oF id), Bool.false_eq_true, if_false]
 
 theorem link_false (st f oSt oF : Name) (hasInv : Bool) (s : St) :
     linkCheck st f oSt oF hasInv false s = (s, lkRep st f oSt oF hasInv s) := by
